@@ -36,7 +36,7 @@ sim_claim("C06", "membership == query result at every hand-back and after every 
   "What 'the query matches' means is decided by a reference evaluator of the generated query grammar (own parser and semantics over the generic JSON of the contact, no contactql code): the library's answer - on the query text parsed afresh under the evaluating environment, so nothing computed at asset load takes part - must equal the reference's, and must be the same on the contact with its URNs in reverse order. Assets may have been loaded under an older environment than the session's (fault). Where the session's base and merged environments disagree on a date condition either result is accepted (counted); a modifier that changes nothing is not required to repair stale stored membership.")
 
 CLAIMED["C10"] = ("fault_enumeration",
-  "deterministic simulation with fault injection: at every wait reached in a simulated run the host forks the persisted session and enumerates one-step futures (resume type x live/restored x asset-store fault x resume limit), each under a restored seam snapshot",
+  "deterministic simulation with fault injection: at every wait reached in a simulated run the host forks the persisted session and enumerates one-step futures (resume type x live/restored x asset-store fault x resume limit), each under a restored seam snapshot; a reference table of which resume types a message wait and a dial wait take is judged at every fork",
   "Seeded search reaches the session states (generated flows, histories, faults); at each reached wait the one-step future space is enumerated exhaustively: 4 resume types on a restored copy and on the live object, up to 13 asset faults between sprints (waiting flow deleted, parent flow deleted, parent node removed, waiting node removed, wait removed, router removed, flow type changed, definition unreadable, transient source error, all other flows unreadable / invalid / deleted) x 4 resume types, the resume limit at and above the number of waits, and 4 resume types against every ended session. Rejected (engine error 101/102/103) => session JSON byte-identical, no events, and a following legitimate resume behaves exactly as on a pristine copy; impossible => failed session with failure event, no live runs, no Go error, no panic.",
   "Exhaustive only over the one-step futures at the waits the search reaches; the reachable session states themselves are sampled. Trusts the seam snapshot/restore around forks (the main line's determinism check covers it).",
   "DESIGN.md §5 C10")
@@ -49,13 +49,13 @@ sim_claim("C19", "twin worlds from one tape differing only in URN secrets (non-i
   "Fields that carry URNs by contract are projected away by an explicit list; transfer_airtime is excluded (its service errors name the number by contract); presence tests on URNs (empty value) are allowed by design.")
 
 CLAIMED["C16"] = ("fault_enumeration",
-  "fault injection on stored definition bytes served by the simulated asset store: exhaustive single storage faults per definition (truncation at every offset; per JSON path deletion, 11 wrong-type replacements, duplicate member; type swaps) plus seeded multi-fault combinations and bit flips, consumed through every entry point a host uses, under recover + watchdog; stability clauses checked on whatever is still accepted",
+  "fault injection on stored definition bytes served by the simulated asset store: exhaustive single storage faults per definition (truncation at every offset; per JSON path deletion, 13 wrong-type and zero-value replacements, duplicate member; type swaps) plus seeded multi-fault combinations and bit flips, consumed through every entry point a host uses, under recover + watchdog; a stability sweep over several thousand further generated definitions as stored, incl. member-by-member equality of a definition with the one read from its own marshalled form; stability clauses checked on whatever is still accepted",
   "Every definition in the repository's testdata/specdata (142 distinct, spec 13.0-13.6 and legacy) and generated flows are damaged by every single storage fault and by seeded multi-faults, then consumed by MigrateToLatest, MigrateToVersion (each version), Clone, ReadFlow, the lazy Flows().Get of a SessionAssets over the simulated store, Inspect/marshal/ChangeLanguage, and NewSession + reload + resumes on whatever was accepted. Oracles: (1) rejection clause - an error, or a flow on which a session runs, never a panic or hang; (2) stability clauses on the stored definition and on every path-deleted / path-replaced / type-swapped variant that still migrates and loads (i.e. is a valid older or current definition by the library's own judgment): flow UUID kept, for 13.x sources every node, exit UUID and destination kept in order, legacy entry node first and legacy action/rule sets kept as nodes, a current-version definition returned byte-identical, second migration a no-op, version-by-version migration byte-equal to migration in one go (UUID seam reset), read -> marshal -> read a fixpoint. The single-fault space of each corpus definition is enumerated completely.",
   "That expression rewrites done by migrations preserve what each template evaluates to is a pure function of the template text (no fault, schedule or history in it) and is not claimed. Variants with duplicate members or bit noise are ambiguous to read and are checked for rejection only. Callers pass migrations.DefaultConfig as every caller in the repository does.",
   "DESIGN.md §5 C16, B.2")
 
 CLAIMED["C09"] = ("exploration",
-  "deterministic simulation of goroutine schedules: seeded baton scheduler (norace plain-word hand-over at every seam call and rewritten lock attempt) under the Go race detector with sync.Pool neutralised by a build overlay; outputs compared with fresh-process solo runs",
+  "deterministic simulation of goroutine schedules: seeded baton scheduler (norace plain-word hand-over at every seam call and rewritten lock attempt) under the Go race detector with sync.Pool neutralised by a build overlay; outputs compared with fresh-process solo runs; the same interleaving executed once more without the race detector (one P, sync.Pool really pooling) and compared with the solo runs as well",
   "Each trial is a fresh process of a -race build made from a scratch copy of the current tree in which sync.Mutex/RWMutex Lock calls are rewritten to TryLock loops that yield the baton. 2-6 worker goroutines drive their own sessions over one shared SessionAssets with a cold flow cache (generated flows plus old-format corpus definitions that migrate lazily); exactly one goroutine runs at a time and a seeded scheduler decides at every seam call who runs next, so one seed is one exactly repeatable interleaving which the race detector judges using only goflow's own synchronisation (the hand-over creates no happens-before edge). Oracles: no race report involving goflow or its dependencies (keyed by access-site pairs), no runtime abort, and each worker's outputs equal - modulo UUIDs and timestamps - its own script run alone in a fresh process. Evidence, not proof: schedules are sampled.",
   "amd64 memory ordering for the plain-word baton; sync.Pool overlay (Put always drops under -race); the race detector sees only accesses a trial executes; gocommon's random package holds its own mutex around generator calls, so random draws are not yield points.",
   "DESIGN.md §3.6, §5 C09")
